@@ -226,13 +226,22 @@ def f_str(f):
     return "(" + (" && " if k == "and" else " || ").join(f_str(x) for x in f[1]) + ")"
 
 
-def implies(g, c):
-    """(ok, counterexample) — does g entail c for every valuation of the atoms?"""
+def implies(g, c, inv=()):
+    """(ok, counterexample) — does g entail c for every valuation of the atoms that satisfies the
+    option invariants `inv` (pairs (a, b) meaning options.a ⇒ options.b)?"""
+    extra = set()
+    for a, b in inv:
+        extra |= {("opt", a), ("opt", b)}
     atoms = sorted(f_atoms(g) | f_atoms(c))
+    atoms += sorted(x for x in extra if x not in atoms and (("opt", x[1]) in atoms or True) and
+                    any(y in atoms for y in extra))
+    atoms = sorted(set(atoms))
     if len(atoms) > 16:
         return False, "guard too complex to decide (%d atoms)" % len(atoms)
     for bits in range(1 << len(atoms)):
         env = {a: bool(bits >> i & 1) for i, a in enumerate(atoms)}
+        if any(env.get(("opt", a)) and not env.get(("opt", b), True) for a, b in inv):
+            continue
         if f_eval(g, env) and not f_eval(c, env):
             on = [a[1] for a in atoms if a[0] == "opt" and env[a]]
             off = [a[1] for a in atoms if a[0] == "opt" and not env[a]]
@@ -314,6 +323,126 @@ def guardf(body, n, strict=False):
         elif strict:
             conj.append(("opaque", "%s|guard#%d" % (body.path, (g[0] if kind == "arm" else g)["_i"])))
     return f_and(conj)
+
+
+# ---------------------------------------------------------------------------------------------
+# invariants of the option set maintained by its writers (`derive_ord ⇒ derive_partialord`, …)
+# ---------------------------------------------------------------------------------------------
+def flag_invariants(prog):
+    """Pairs (A, B) of bool fields of BindgenOptions with `A ⇒ B` in every reachable option set:
+    A starts false, and every function that assigns A or B re-establishes the implication (checked by
+    running the writer on all pre-states satisfying it and both values of its bool parameter).
+    returns {(A, B): [writer bodies]}"""
+    writers = defaultdict(list)  # body path -> [assign nodes]
+    escaped = set()
+    for b in prog.bodies.values():
+        for n in b.nodes:
+            if n["k"] == "Assign" and n["l"].get("k") == "Field" and n["l"].get("adt") == OPT and b.ty(n["l"]) == "bool":
+                writers[b.path].append(n)
+            elif n["k"] == "AddrOf" and n.get("mut") and n["e"].get("k") == "Field" and n["e"].get("adt") == OPT and b.ty(n["e"]) == "bool":
+                escaped.add(n["e"]["f"])
+    # defaults
+    defaults = {}
+    lits = []
+    for b in prog.bodies.values():
+        for n in b.nodes:
+            if n["k"] == "Struct" and n.get("adt") == OPT:
+                lits.append((b, n))
+    for b, n in lits:
+        tr = b.fact.get("impl_trait") or ""
+        if tr.endswith("::Clone"):
+            continue
+        for f in n["fs"]:
+            e = strip(f["e"])
+            v = None
+            if e.get("k") == "Lit" and isinstance(e.get("v"), bool):
+                v = e["v"]
+            elif e.get("k") == "Call" and callee_of(e) == "<bool as std::default::Default>::default":
+                v = False
+            prev = defaults.get(f["f"], v)
+            defaults[f["f"]] = v if prev == v else None
+        if "base" in n:
+            defaults.clear()
+            break
+    by_flag = defaultdict(set)
+    for p, ns in writers.items():
+        for n in ns:
+            by_flag[n["l"]["f"]].add(p)
+
+    def run(body, A, B, st, p):
+        """execute the statements of body that assign A / B; returns False when undecidable."""
+        rel = [n for n in writers[body.path] if n["l"]["f"] in (A, B)]
+
+        def has_rel(x):
+            return any(_contains(x, r) for r in rel)
+
+        def val(e):
+            e = strip(e)
+            if e.get("k") == "Lit" and isinstance(e.get("v"), bool):
+                return e["v"]
+            if e.get("k") == "Unary" and e["op"] == "!":
+                v = val(e["e"])
+                return None if v is None else (not v)
+            if e.get("k") == "Local" and body.ty(e) == "bool":
+                d = body.local_def.get(e["id"])
+                if d and d[0][0] == "param" and e["id"] not in body.local_assigned:
+                    return p
+                init = body.local_init(e["id"])
+                if init is not None:
+                    return val(init)
+            if e.get("k") == "Field" and e.get("adt") == OPT and e["f"] in (A, B):
+                return st[e["f"]]
+            return None
+
+        def block(x):
+            x = x if x.get("k") == "Block" else {"k": "Block", "stmts": [], "tail": x}
+            items = [s.get("e") if s["k"] in ("Semi", "ExprStmt") else s for s in x["stmts"]]
+            if x.get("tail") is not None:
+                items.append(x["tail"])
+            for e in items:
+                if e is None or not has_rel(e):
+                    continue
+                if e["k"] == "Assign" and e in rel:
+                    v = val(e["r"])
+                    if v is None:
+                        return False
+                    st[e["l"]["f"]] = v
+                elif e["k"] == "If":
+                    c = val(e["cond"])
+                    if c is None:
+                        return False
+                    br = e["then"] if c else e.get("else")
+                    if br is not None and not block(br):
+                        return False
+                elif e["k"] == "Block":
+                    if not block(e):
+                        return False
+                else:
+                    return False
+            return True
+        return block(body.root)
+
+    out = {}
+    for p, ns in writers.items():
+        fl = sorted({n["l"]["f"] for n in ns})
+        for A in fl:
+            for B in fl:
+                if A == B or (A, B) in out or A in escaped or B in escaped:
+                    continue
+                if defaults.get(A) is not False:
+                    continue
+                ok = True
+                ws = sorted(by_flag[A] | by_flag[B])
+                for w in ws:
+                    wb = prog.bodies[w]
+                    for pre in ((False, False), (False, True), (True, True)):
+                        for pv in (False, True):
+                            st = {A: pre[0], B: pre[1]}
+                            if not run(wb, A, B, st, pv) or (st[A] and not st[B]):
+                                ok = False
+                if ok:
+                    out[(A, B)] = [prog.bodies[w] for w in ws]
+    return out
 
 
 # ---------------------------------------------------------------------------------------------
@@ -415,9 +544,15 @@ def r12_1(rep):
         if any(u[0] == f for u in unwraps):
             rep.bad("reset:%s@%s" % (f, short(b)), "result field `%s` is emptied again; later unwraps may see None" % f, b.loc(n))
 
+    invs = flag_invariants(prog)
+    for (a, b2), ws in sorted(invs.items()):
+        rep.ok("option-invariant:%s=>%s" % (a, b2), "`%s` starts false and every writer keeps `%s ⇒ %s` (%s)" %
+               (a, a, b2, ", ".join(short(w) for w in ws)), ws[0].loc(ws[0].root))
+    inv = tuple(invs)
+
     def check_site(f, need, body, node, g_inner, depth, via):
         g = f_and([g_inner, guardf(body, node)])
-        ok, cex = implies(g, need)
+        ok, cex = implies(g, need, inv)
         key = "guard:%s@%s" % (f, short(body))
         if ok:
             rep.ok(key, "guard %s implies %s%s" % (f_str(g), f_str(need), via), body.loc(node))
@@ -449,6 +584,9 @@ def r12_1(rep):
 # ---------------------------------------------------------------------------------------------
 TEXT_RE = re.compile(r"\bstr\b|\bString\b|\bCow<|\bOsStr|\bPathBuf\b|\bPath\b")
 SCALAR_RE = re.compile(r"^&*(?:mut )?(bool|u8|u16|u32|u64|u128|usize|i8|i16|i32|i64|i128|isize|f32|f64|char|\(\))$")
+LOOKUPS = {"get", "get_mut", "get_key_value", "remove", "remove_entry", "take", "first", "last", "nth", "strip_prefix", "strip_suffix",
+           "trim_start_matches", "trim_end_matches", "split", "rsplit", "splitn", "rsplitn", "split_once", "rsplit_once",
+           "filter", "find", "skip", "take_while", "skip_while", "position", "get_unchecked"}
 MUTATORS = {"push", "push_str", "extend", "extend_from_slice", "insert", "append", "push_back", "push_front", "insert_str",
             "entry", "or_insert", "or_insert_with", "or_default"}
 
@@ -608,6 +746,9 @@ class Taint:
         if callee and callee.split("::")[0] in self.prog_roots():
             # unresolved call of a crate trait method: not a simple helper
             return set()
+        if n["k"] == "MCall" and n["name"] in LOOKUPS:
+            # the result comes out of the container, not out of the key / needle
+            return self.expr(body, n["recv"], depth)
         return self._union(body, actual, depth)
 
     def prog_roots(self):
@@ -796,10 +937,65 @@ def r12_2(rep):
 # ---------------------------------------------------------------------------------------------
 # R12.3 error values
 # ---------------------------------------------------------------------------------------------
+def _bool_lits(p):
+    out = set()
+    for v in pat_variants(p):
+        out |= {True, False} if v == "_" else ({True} if v == "lit:True" else {False} if v == "lit:False" else set())
+    return out
+
+
+def cond_guards(body, node):
+    """guard chain of node as [(polarity, condition expression)]: `if`/`&&`/`||`/early exits, plus the arms of a
+    `match` over a bool scrutinee (`match c { true => …, false => … }` ≡ `if c {…} else {…}`).
+    Non-boolean guards are returned as (True, ('arm', match, i)) / (True, ('letelse', stmt))."""
+    out = []
+    for pol, kind, g in body.guards(node):
+        if kind == "cond":
+            out.append((pol, g))
+        elif kind == "arm":
+            m, i = g
+            if body.ty(m["scrut"]) == "bool":
+                mine = _bool_lits(m["arms"][i]["pat"])
+                for a in m["arms"][:i]:
+                    if "guard" not in a:
+                        mine -= _bool_lits(a["pat"])
+                if len(mine) == 1:
+                    out.append((True in mine, m["scrut"]))
+                    continue
+            out.append((True, ("arm", m, i)))
+        else:
+            out.append((True, ("letelse", g)))
+    return out
+
+
 def atoms_of(body, node):
-    """flattened guard atoms [(canon, polarity, node)] with immutable bool locals expanded."""
-    from qq import guard_atoms
-    return guard_atoms(body, node)
+    """flattened guard atoms [(canon, polarity, node)]: `!`, `&&`, `||`-under-negation and immutable bool locals
+    are expanded; bool matches count as conditions."""
+    out = []
+
+    def atoms(e, pol):
+        e = strip(e)
+        if e["k"] == "Unary" and e["op"] == "!":
+            return atoms(e["e"], not pol)
+        if e["k"] == "Binary" and e["op"] == "&&" and pol:
+            return atoms(e["l"], True) + atoms(e["r"], True)
+        if e["k"] == "Binary" and e["op"] == "||" and not pol:
+            return atoms(e["l"], False) + atoms(e["r"], False)
+        if e["k"] == "Local" and body.ty(e) == "bool":
+            init = body.local_init(e["id"])
+            if init is not None:
+                return atoms(init, pol)
+        return [(body.canon(e, 6), pol, e)]
+
+    for pol, g in cond_guards(body, node):
+        if isinstance(g, tuple):
+            if g[0] == "arm":
+                out.append(("arm:%s:%s" % (body.canon(g[1]["scrut"], 4), "|".join(sorted(pat_variants(g[1]["arms"][g[2]]["pat"])))), True, g[1]))
+            else:
+                out.append(("letelse:" + body.canon(g[1].get("init", {}), 4), True, g[1]))
+        else:
+            out += atoms(g, pol)
+    return out
 
 
 def returned_as_err(body, n):
@@ -907,9 +1103,14 @@ def r12_3(rep):
         if not rep.check(acc is not None, "diag-message-source", "the ClangDiagnostic payload is the accumulated diagnostics text", parse.loc(c)):
             continue
         # the return is guarded by nothing but "some error was recorded"
-        gs = parse.guards(c)
-        only = len(gs) == 1 and gs[0][1] == "cond" and gs[0][0] and gs[0][2]["k"] == "LetCond" and \
-            any(v.endswith("::Some") for v in pat_variants(gs[0][2]["pat"])) and strip(gs[0][2]["init"]).get("id") == acc
+        gs = cond_guards(parse, c)
+        only = len(gs) == 1 and gs[0][0] and not isinstance(gs[0][1], tuple) and gs[0][1]["k"] == "LetCond" and \
+            any(v.endswith("::Some") for v in pat_variants(gs[0][1]["pat"])) and strip(gs[0][1]["init"]).get("id") == acc
+        if not only and len(gs) == 1 and isinstance(gs[0][1], tuple) and gs[0][1][0] == "arm":
+            # `match error { Some(message) => return Err(..), None => {} }`
+            m, i = gs[0][1][1], gs[0][1][2]
+            only = strip(m["scrut"]).get("id") == acc and all(v.endswith("::Some") for v in pat_variants(m["arms"][i]["pat"])) \
+                and "guard" not in m["arms"][i]
         rep.check(only, "diag-return-unconditional", "`return Err(ClangDiagnostic)` depends only on an error having been recorded "
                   "(guards: %s)" % [a for a, _, _ in atoms_of(parse, c)], parse.loc(c))
         # the accumulator is written exactly under the severity test, inside the loop over all diagnostics
@@ -921,9 +1122,9 @@ def r12_3(rep):
                 writes.append(n)
         rep.check(bool(writes), "diag-recorded", "the error accumulator is written somewhere", parse.loc(c))
         for w in writes:
-            conds = [(pol, g) for pol, kind, g in parse.guards(w) if kind == "cond"]
-            under = any(pol and resolves_to(parse, g, good_cmp) for pol, g in conds)
-            extra = [parse.canon(g, 3) for pol, g in conds if not resolves_to(parse, g, good_cmp)]
+            conds = cond_guards(parse, w)
+            under = any(pol and not isinstance(g, tuple) and resolves_to(parse, g, good_cmp) for pol, g in conds)
+            extra = [g for pol, g in conds if isinstance(g, tuple) or not resolves_to(parse, g, good_cmp)]
             inloop = any(a in loops for a in parse.ancestors(w))
             rep.check(under and not extra and inloop, "diag-recorded-iff-error",
                       "every diagnostic with error severity is recorded (guards: %s; in diag loop: %s)" %
